@@ -282,6 +282,30 @@ pub fn c15(tier: &str, seed: u64) {
           }
         }
       }
+      // the server answers ANY decodable point - the identity (32 zero bytes) included - and what it
+      // answers must load back from its own JSON
+      if n % 16 == 1 || !q {
+        let idp = Point::from(&[0u8; 32][..]);
+        for verifiable in [true, false] {
+          if let Ok(evi) = server.eval(&idp, md, verifiable) {
+            let text = serde_json::to_string(&evi).unwrap();
+            case(true);
+            stat("oracle.C15.identity_requests");
+            match try_eval_json(&text) {
+              Some(Ok(e3)) => {
+                if e3.output != evi.output || serde_json::to_string(&e3).unwrap() != text {
+                  fail("eval_json_roundtrip_differs", &[("text", text.clone())]);
+                }
+                if verifiable && verify_guarded(&restored, &idp, &e3, md) != verify_guarded(&restored, &idp, &evi, md) {
+                  fail("verify_after_json_roundtrip", &[("n", n.to_string()), ("md", md.to_string()), ("text", text.clone())]);
+                }
+              }
+              Some(Err(e)) => fail("eval_json_roundtrip_refused", &[("text", text.clone()), ("err", e), ("request", "the identity element (32 zero bytes)".into())]),
+              None => fail("eval_json_roundtrip_panic", &[("text", text.clone())]),
+            }
+          }
+        }
+      }
       // the point type on its own
       let ptext = serde_json::to_string(&ev.output).unwrap();
       case(true);
